@@ -1,3 +1,91 @@
-import AioModel.C17
+import AioProps.C17Lemmas
+/-!
+# C17 — property theorems (redirects confine credentials and terminate)
+
+Model: `AioModel/C17.lean` (= the redirect loop of `aiohttp/client.py: ClientSession._request`
+with `ClientRequest` header construction).  Every statement quantifies over **all** chains of
+scripted responses (any length, any statuses, any `Location` outcomes, any origins), all
+caller inputs, all cookie jars / netrc tables / cookie parsers (`Env`) and all configurations.
+
+Vocabulary: `(run …).sent` is the list of requests put on the wire, in order; request `k`
+has `idx = k`; a header / cookie pair carries the provenances of its value (`Prov`), whose
+`birth` is the hop at which the value entered the loop (`caller` = 0, `url h` = the URL
+requested at hop `h` carried it as userinfo, `netrc h`, `jar h` = looked up at hop `h`).
+-/
 namespace Aio.C17
+open Aio
+
+/-- the run of `ClientSession._request` for the given caller inputs -/
+abbrev request (env : Env) (cfg : Cfg) (url : Url) (params : Option Str) (method : Str)
+    (defaults headers : List (Str × Str)) (cookies : Option (List (Str × Str))) (data : Option Body)
+    (jar0 : env.jar.σ) (chain : List Resp) : Result :=
+  run env cfg (init env url params method defaults headers cookies data jar0) chain
+
+/-- **Secrets are confined to the origin they were supplied for.**  Whenever a request `sk` of
+the chain carries an `Authorization`, `Cookie` or `Proxy-Authorization` header, every value in
+it entered the loop at some hop `b ≤ k` (the caller's at hop 0, URL-embedded credentials at the
+hop whose URL carried them, jar / netrc values at the hop that looked them up) and **every**
+request from hop `b` up to `sk` went to the same origin as `sk`.  So nothing supplied for one
+origin is ever sent to another, whatever the statuses, `Location` forms and origin changes. -/
+theorem secrets_confined (env : Env) (cfg : Cfg) (url : Url) (params : Option Str) (method : Str)
+    (defaults headers : List (Str × Str)) (cookies : Option (List (Str × Str))) (data : Option Body)
+    (jar0 : env.jar.σ) (chain : List Resp) :
+    let sent := (request env cfg url params method defaults headers cookies data jar0 chain).sent
+    ∀ sk ∈ sent, ∀ hd ∈ sk.headers, isSecretName hd.name = true → ∀ p ∈ hd.provs,
+      p.birth ≤ sk.idx ∧
+      ∀ sj ∈ sent, p.birth ≤ sj.idx → sj.idx ≤ sk.idx → sj.url.origin = sk.url.origin := by
+  intro sent sk hk hd hhd hsec p hp
+  have ⟨hok, hstreak⟩ := run_trace (cfg := cfg) chain _ (init_inv env url params method defaults headers cookies data jar0)
+  obtain ⟨htag, _, _, _, _⟩ := hok sk hk
+  have hb := htag hd hhd hsec p hp
+  refine ⟨hb.2, ?_⟩
+  intro sj hj h1 h2
+  exact hstreak sj hj sk hk (Nat.le_trans hb.1 h1) h2
+
+/-- The same for the individual pairs of a merged `Cookie` header (per-request cookies are
+tagged `caller`, jar cookies `jar k`). -/
+theorem cookie_pairs_confined (env : Env) (cfg : Cfg) (url : Url) (params : Option Str) (method : Str)
+    (defaults headers : List (Str × Str)) (cookies : Option (List (Str × Str))) (data : Option Body)
+    (jar0 : env.jar.σ) (chain : List Resp) :
+    let sent := (request env cfg url params method defaults headers cookies data jar0 chain).sent
+    ∀ sk ∈ sent, ∀ c ∈ sk.cookiePairs, ∀ p ∈ c.provs,
+      p.birth ≤ sk.idx ∧
+      ∀ sj ∈ sent, p.birth ≤ sj.idx → sj.idx ≤ sk.idx → sj.url.origin = sk.url.origin := by
+  intro sent sk hk c hc p hp
+  have ⟨hok, hstreak⟩ := run_trace (cfg := cfg) chain _ (init_inv env url params method defaults headers cookies data jar0)
+  obtain ⟨_, hpairs, _, _, _⟩ := hok sk hk
+  have hb := hpairs c hc p hp
+  refine ⟨hb.2, ?_⟩
+  intro sj hj h1 h2
+  exact hstreak sj hj sk hk (Nat.le_trans hb.1 h1) h2
+
+/-- **Caller-supplied secrets never leave the first origin, and A→B→A does not resurrect them.**
+If a request carries a secret header value supplied by the caller (`headers=`, session default
+headers, `cookies=`), then that request *and every request before it* went to the origin of the
+very first request. -/
+theorem caller_secret_never_leaves_first_origin (env : Env) (cfg : Cfg) (url : Url) (params : Option Str)
+    (method : Str) (defaults headers : List (Str × Str)) (cookies : Option (List (Str × Str)))
+    (data : Option Body) (jar0 : env.jar.σ) (chain : List Resp) :
+    let sent := (request env cfg url params method defaults headers cookies data jar0 chain).sent
+    ∀ sk ∈ sent, ∀ hd ∈ sk.headers, isSecretName hd.name = true → Prov.caller ∈ hd.provs →
+      ∀ sj ∈ sent, sj.idx ≤ sk.idx → sj.url.origin = sk.url.origin := by
+  intro sent sk hk hd hhd hsec hp sj hj hle
+  exact (secrets_confined env cfg url params method defaults headers cookies data jar0 chain sk hk hd hhd hsec _ hp).2
+    sj hj (Nat.zero_le _) hle
+
+/-- **No resurrection**, stated contrapositively: once some request `sj` went to an origin other
+than a later request `sk`'s, `sk` carries no caller-supplied secret and no credential that was
+embedded in a URL requested at or before `sj`. -/
+theorem no_resurrection (env : Env) (cfg : Cfg) (url : Url) (params : Option Str)
+    (method : Str) (defaults headers : List (Str × Str)) (cookies : Option (List (Str × Str)))
+    (data : Option Body) (jar0 : env.jar.σ) (chain : List Resp) :
+    let sent := (request env cfg url params method defaults headers cookies data jar0 chain).sent
+    ∀ sj ∈ sent, ∀ sk ∈ sent, sj.idx ≤ sk.idx → sj.url.origin ≠ sk.url.origin →
+      ∀ hd ∈ sk.headers, isSecretName hd.name = true → ∀ p ∈ hd.provs, sj.idx < p.birth := by
+  intro sent sj hj sk hk hle hne hd hhd hsec p hp
+  have h := (secrets_confined env cfg url params method defaults headers cookies data jar0 chain sk hk hd hhd hsec p hp).2
+  by_cases hb : p.birth ≤ sj.idx
+  · exact absurd (h sj hj hb hle) hne
+  · omega
+
 end Aio.C17
